@@ -17,6 +17,9 @@ def run(c, facts, tier):
     )
     c.decided = ["each generated name bound exactly once", "use after binding (let* order)", "reference reaches the resource created for that request", "identical requests share, different requests never share"]
     c.not_decided = ["behaviour of the executed policy"]
+    from .. import report as _rep
+
+    _rep.require(c, facts, "c02", "C11.key", "requests", "each name/path test asks for the matcher of its own pattern and case-sensitivity", lambda o: o["rule"] == "C02.match" and "matcher(pattern, ci=" in o["instance"], "which (pattern, case flag) request a test sends to the manager is decided by the C02.match rows of the test table")
     c.exhaustive = True
     npaths = 0
     for M in codegen.MANAGERS:
